@@ -38,6 +38,7 @@ MIN = {'quick': {'distinct': 2000,
                             'second call on a changed copy': 1000,
                             'gap: unary root': 100, 'gap: gapdeg>=2': 100,
                             'one-token sentence': 30,
+                            'writer: more than 2000 sentences in one file': 2,
                             'topdown: unary root': 100}},
        'thorough': {'distinct': 100000,
                     'hooks': {'transitions.gap': 80000}}}
@@ -612,7 +613,7 @@ def shard(ctx):
     # ---- writer + command line --------------------------------------------------
     for i in ctx.indices(ctx.pick(200, 15000)):
         rng = ctx.rng('writer', i)
-        run_writer(ctx, rng, pools)
+        run_writer(ctx, rng, pools, long=i % 100 == 7)
     for i in ctx.indices(ctx.pick(48, 3000)):
         run_cli(ctx, ctx.rng('cli', i), i)
 
@@ -623,13 +624,16 @@ def _binary(shape):
     return len(shape) <= 2 and all(_binary(c) for c in shape)
 
 
-def run_writer(ctx, rng, pools):
+def run_writer(ctx, rng, pools, long=False):
     R = ctx.R
     system = rng.choice(['topdown', 'inorder'])
+    # long: more sentences than any block the writer may work in (> 2000)
     specs = [binary_tree(rng, gen.Pools(words=gen.WORDS_ASCII
                                         + gen.WORDS_NONASCII),
-                         rng.randint(1, 8), 0, 0.2, rng.random() < 0.3)
-             for _ in range(rng.randint(1, 4))]
+                         rng.randint(1, 2 if long else 8), 0, 0.2,
+                         rng.random() < 0.3)
+             for _ in range(rng.randint(2001, 2300) if long
+                            else rng.randint(1, 4))]
     case = {'kind': 'writer', 'system': system, 'specs': specs,
             'pos': rng.random() < 0.5}
     writer_case(ctx, case, rng)
@@ -661,6 +665,8 @@ def writer_case(ctx, case, rng):
             if [t.pretty_print() for t in seq] != names:
                 ctx.fail('C10:writer-sequence', case, 'written %r' % names[:8])
     ctx.case(['writer', system, pos, [s['root'] for s in specs]])
+    if len(specs) > 2000:
+        ctx.stratum('writer: more than 2000 sentences in one file')
 
 
 def replay(ctx, case):
